@@ -228,6 +228,25 @@ def check_groups(ctx, db):
             if is_assign(x) and norm(x.child('lhs').text()).startswith('result[') and _strip_casts(x.child('rhs')).k != 'CXXBoolLiteralExpr':
                 ok = False
         ctx.check(ok and bool(pos), 'R-EFFECT', '%s/verdict-through-contain' % qn.replace('gdstk::', ''), f.loc(), 'a positive verdict is reached only under a true Polygon::contain (or as the final value of an all-quantifier)')
+        # a per-point verdict variable is fresh in every iteration of the per-point loop
+        for x in f.walk():
+            if not (is_assign(x) and norm(x.child('rhs').text()) == 'true'):
+                continue
+            inner = next((a for a in x.ancestors() if a.k == 'ForStmt'), None)
+            outer = next((a for a in inner.ancestors() if a.k == 'ForStmt'), None) if inner is not None else None
+            if inner is None or outer is None:
+                continue
+            key = norm(x.child('lhs').text())
+            body = [s_ for s_ in (outer.child('body').c if outer.child('body').k == 'CompoundStmt' else [outer.child('body')]) if s_ is not None]
+            top = next((s_ for s_ in body if s_ is inner or any(y is inner for y in s_.walk())), None)
+            fresh = False
+            for s_ in body[:body.index(top)] if top in body else []:
+                if is_assign(s_) and norm(s_.child('lhs').text()) == key and norm(s_.child('rhs').text()) == 'false':
+                    fresh = True
+                if s_.k == 'DeclStmt' and any(v is not None and v.k == 'VarDecl' and v.n == key and v.child('init') is not None and norm(v.child('init').text()) == 'false' for v in s_.c):
+                    fresh = True
+            ctx.check(fresh, 'R-FRESH', '%s/per-point-verdict:%s' % (qn.replace('gdstk::', ''), key), x.loc(), 'the verdict `%s` is reset to false at the start of every point\'s iteration, before the search over the polygons' % key,
+                      'the per-point verdict `%s` is not reset inside the loop over the points: once one point is found inside, every later point inherits the answer' % key)
         # every point and every polygon is visited
         loops = [norm(l.child('cond').text()) for l in f.walk() if l.k == 'ForStmt']
         needp = any(c.endswith('< points.count)') for c in loops)
@@ -272,7 +291,7 @@ def run(ctx):
 
 
 MANIFEST = dict(
-    text='Decides, by exhaustive enumeration of weak orderings (a finite abstract domain that is exact for comparison-only predicates): soundness of the five bounding-box pre-filters; the 9-case table of Polygon::contain over (p0.x, p1.x) against x (only strictly-left edges may be skipped, right edges counted, all others go through the determinant test that reports on-edge points), the half-open crossing rule, and soundness/completeness of the vertex/horizontal-edge boundary test over 81 orderings; plus: group functions reach a positive verdict only through Polygon::contain and visit all points and polygons; area/signed_area/perimeter return 0 below three vertices before reading vertices, area and signed_area share one shoelace prologue+loop, the repetition factor applies to area and perimeter only, the perimeter is closed. Accumulation of the winding number over whole polygons and floating-point sums are not decided.',
+    text='Decides, by exhaustive enumeration of weak orderings (a finite abstract domain that is exact for comparison-only predicates): soundness of the five bounding-box pre-filters; the 9-case table of Polygon::contain over (p0.x, p1.x) against x (only strictly-left edges may be skipped, right edges counted, all others go through the determinant test that reports on-edge points), the half-open crossing rule, and soundness/completeness of the vertex/horizontal-edge boundary test over 81 orderings; plus: group functions reach a positive verdict only through Polygon::contain, visit all points and polygons, and reset a per-point verdict at the start of every point's iteration; area/signed_area/perimeter return 0 below three vertices before reading vertices, area and signed_area share one shoelace prologue+loop, the repetition factor applies to area and perimeter only, the perimeter is closed. Accumulation of the winding number over whole polygons and floating-point sums are not decided.',
     note='Trusted: clang front end, gx, sa rules. Conditions are interpreted only as Boolean combinations of comparisons; anything else raises analysis-broken.',
     technique='predicate extraction + exhaustive weak-order enumeration (finite abstract domain) + decision-table extraction + clone/shape rules',
     design='§4 C14')
